@@ -45,6 +45,35 @@ through `self`/`cls`; every per-object cache (`cached_property`) is on the revie
 theorem cacheSites_pure : cacheSites.all cacheOK = true ∧ cacheSites.isEmpty = false := by
   decide +kernel
 
+def returnOK (c : CacheSite) : Bool :=
+  c.decorator == k! "cached_property" || immutableReturns.contains c.returns ||
+  match reviewedCacheReturns.lookup (c.file, c.func) with
+  | some .noCaller => c.callers == 0
+  | some _ => true
+  | none => false
+
+/-- Every process-wide memoised function (`lru_cache`, `cache`) returns a value of an immutable type (`str`, `bool`, …) or is
+on the reviewed list (enum member, instance of a shared class that is never written to, compiled template, dead code — the
+last one re-checked: nothing in the package loads its name). A new cache whose result is a dict, a list, `Any` or an object
+(e.g. a loaded document that the parser rewrites in place) breaks this. -/
+theorem memoised_results_immutable_or_reviewed :
+    cacheSites.all returnOK = true ∧ (cacheSites.any (fun c => c.decorator != k! "cached_property")) = true := by
+  decide +kernel
+
+def listingOK (s : ListingSite) : Bool :=
+  (s.isSorted && s.key == k! "") ||
+  match reviewedListingSites.lookup (s.file, s.func, s.call) with
+  | some .sortedByBasename => s.isSorted && s.key == k! "lambda p: p.name"
+  | some .firstFileDecidesInputType => true
+  | none => false
+
+/-- Every call of a directory-listing primitive in the source (`rglob`, `glob`, `iglob`, `iterdir`, `os.walk`, `os.fwalk`,
+`os.listdir`, `os.scandir`) is the first argument of `sorted(` without a key (the natural order of paths is total), or is on
+the reviewed list — and the directory-input site is still `sorted(…, key=lambda p: p.name)`, the shape
+`iterSource_perm_invariant` talks about. -/
+theorem listing_sites_sorted : listingSites.all listingOK = true ∧ listingSites.isEmpty = false := by
+  decide +kernel
+
 /-- Every mutable object created in a class body (shared by all instances and all runs) is on the
 reviewed list: pydantic field default, constant, or rebound per run. -/
 theorem classMutables_reviewed :
